@@ -5,7 +5,7 @@
    it (never_raises, refinement on every branch) no longer check. *)
 From Coq Require Import Reals ZArith QArith Qreals String List Bool.
 From Coquelicot Require Import Coquelicot.
-From PT Require Import Str Dec Py IExpr ActEval ActEvalSound Act Activation C14Proofs C14Sweep C14Table.
+From PT Require Import Str Dec Py IExpr ActEval ActEvalSound Act Activation C14Proofs C14Sweep C14Table C14Rows.
 From PT Require C14Check.   (* the comparison rules the tie runs: kept in the build of this file *)
 From PT.Gen Require ActivationDat.
 Import ListNotations.
@@ -157,3 +157,11 @@ Proof.
         (conj sign_of_sound ln2_bounds)).
 Qed.
 Print Assumptions C14_comparison_rule_sound.
+
+(* ---------------- every row names the nuclide it is filed under: the "isotope" column is Sym-A for the symbol of
+   atomic number Z (core.element_base) and the mass number A under which activation.init files the row *)
+Theorem C14_rows_name_their_target : forall rows, the_rows = Some rows -> forall r, In r rows ->
+  act_row_names_target r = true.
+Proof. exact act_rows_name_their_target. Qed.
+Print Assumptions C14_rows_name_their_target.
+
